@@ -1211,7 +1211,8 @@ hwloc__xml_import_distances(hwloc_topology_t topology,
 
   /* abort if missing attribute */
   /* kind may be 0, both the provenance and the meaning of values are optional */
-  if (!nbobjs || (!heterotypes && unique_type == HWLOC_OBJ_TYPE_NONE) || !indexing) {
+  if (!nbobjs || nbobjs > 65535 /* nbobjs*nbobjs must fit in unsigned */
+      || (!heterotypes && unique_type == HWLOC_OBJ_TYPE_NONE) || !indexing) {
     if (hwloc__xml_verbose())
       fprintf(stderr, "%s: %s missing some attributes\n",
 	      state->global->msgprefix, _TAG_NAME);
